@@ -502,6 +502,7 @@ def run_property(prop, tier, seed):
     samples = []
     other = {}
     classes = {}
+    reached = {}
     for (job, shard), tr, r in zip(pairs, traces, results):
         states += r['states']
         trans += r['states']
@@ -537,6 +538,8 @@ def run_property(prop, tier, seed):
                         if len(samples) < 6 and (len(sigs) % 97 == 1):
                             samples.append(s)
                     perop[ev['op']] = perop.get(ev['op'], 0) + 1
+                    for fn in ev.get('fn', []):
+                        reached[fn] = reached.get(fn, 0) + 1
         bad = [(ln, op, reasons) for (ln, op, reasons) in r['fails']] + [(c[0], 'crash', ['crash']) for c in r['crashes']]
         if job.cfg in P.get('skip_reject_cfgs', []):
             bad = []
@@ -594,6 +597,7 @@ def run_property(prop, tier, seed):
         'events_per_operation': perop, 'model_checks': mc_summ,
         'build_configurations': sorted(set(j.cfg for j in jobs)),
         'rejections_left_to_other_properties': other,
+        'internal_routines_reached': reached,
     }
     res['coverage'].update(extra_cov)
     if P['level'] == 'other':
